@@ -67,10 +67,11 @@ Theorem C14_unstructured_cast :
        (nth a (nth (flat (g_c g) (data_shape g) i) (u_data_points u) []) 0 == nth a (coord_at g i) 0)%Q).
 Proof. exact unstructured_cast. Qed.
 
-(** Memo state machine of RectilinearGrid: for every grid and every sequence of reads of
-    data_shape / data_size / data_points, location changes (valid or rejected) and copies, on any of
-    the objects created so far, every read returns the pure function of the object's current
-    grid record (whose location is the one set last). *)
+(** Living grid objects (memo state machine of RectilinearGrid): for every grid and every sequence
+    of reads of data_shape / data_size / data_points / data_axes / points / cells / cell_centers /
+    cell_axes / to_unstructured().data_points and .data_shape ([MProp]), location changes (valid or
+    rejected) and copies, on any of the objects created so far, every read returns the pure function
+    of the object's current grid record (whose location is the one set last). *)
 Theorem C14_location_current :
   forall (g : grid) (ops : list mop), Forall read_ok (mrun true [fresh g] ops).
 Proof. exact location_current. Qed.
